@@ -918,6 +918,13 @@ def verify(cname, cfg, timeout_ms=20000, seed=0, repo_src=None, samples=0):
                 elif status == "unknown" and first_ms < timeout_ms:
                     status, model, secs, reason = solve(hyps, goal, timeout_ms, None, seed)
                     res.solver_s += secs
+            if status == "unknown" and sum(1 for o in res.obligations if o["status"] == "unknown") < 2:
+                # an undecided query is retried once with three times the budget and another seed, so that a busy machine
+                # does not turn a provable obligation into "undecided"
+                st3, m3, secs3, r3 = solve(hyps, goal, timeout_ms * 3, None, seed + 1)
+                res.solver_s += secs3
+                if st3 != "unknown":
+                    status, model, reason = st3, m3, r3
             if status in ("refuted", "unknown"):
                 t1 = time.time()
                 dm = dyadic_model(hyps, goal, b.symbols, min(timeout_ms, 10000))
